@@ -45,6 +45,14 @@ CHECKS = {
                      "derivation proved on the model). The source functions are re-translated on every run.",
                 note=TB + "; floats as exact dyadics (IEEE exactness at these call sites exercised by correspondence: 2^23 "
                      "mantissa sweeps); pooling exactness assumes natural rounding in the NPU; open finding: int16 windows > 2^15"),
+    "C14": dict(cat="other", ref="7/C14", technique="Coq theorems on memo stores as state machines + history/hash-seed search over real compilations (exploration)",
+                text="Partial. Proved in Coq: a memo store is transparent for every request history iff its key determines the cached "
+                     "computation (cache_transparent, cache_collision_refutes); the address map trips its assertion exactly when a "
+                     "surviving identifier gets a second address (address_map_history, address_map_consistent). Explored, not proved: "
+                     "multi-compilation histories in one process (A;A, A;B;A, mixed entry points main/convert/convert_bytes, mixed "
+                     "accelerators) and several PYTHONHASHSEED values; every step is compared byte for byte and by summary figures "
+                     "with a solo compilation in a fresh process.",
+                note=TB + "; the stores' real key functions are not translated (C08 models the weight cache key); sampled histories"),
     "C15": dict(cat="proof", ref="7/C15", technique="Coq theorems over _try_block_config and helpers translated from the source every run + hand model of find_block_config/try_block_config; oracle on api.npu_find_block_configs; proved register validator on generated ops and compiled streams",
                 text="try_layout_wellformed (all inputs, any SHRAM config): ordered, disjoint, in-range partitions each double-buffering its "
                      "block at the bank granule; find_config_valid / offered_config_valid for the six accelerator rows (regenerated by "
